@@ -20,6 +20,7 @@ type BuildOpts struct {
 	Tokenizer  string // "" = pick
 	SingleSpec bool
 	ExtFiles   bool // add external-writer files
+	BigNums    bool // boundary-magnitude values under the indexed keys
 }
 
 // Descriptor is the replayable description of a built scenario.
@@ -44,6 +45,7 @@ func Build(r *core.Rand, caseID string, o BuildOpts) (*World, *Descriptor, error
 // engine is created (to instrument the stores).
 func BuildWith(r *core.Rand, caseID string, o BuildOpts, pre func(*World)) (*World, *Descriptor, error) {
 	v := gen.NewVocab(r.Split("vocab"))
+	v.BigNums = o.BigNums
 	tok := gen.PickTokenizer(r.Split("tok"))
 	if o.Tokenizer != "" {
 		tok = gen.TokenizerByName(o.Tokenizer)
